@@ -35,6 +35,7 @@ Definition rc_spec (rs re cs ce : option Z) (R C : Z) (ai oi : bool) : res (Z * 
   let cs1 := rc_dflt 1 (rc_pre ai cs) in
   let ce1 := rc_dflt (C + 1) (rc_pre ai ce) in
   if (cs1 =? 0) || (rs1 =? 0) then Err "ValueError"
+  else if (ce1 =? 0) || (re1 =? 0) then Err "ValueError"
   else
     bind (rc_start R rs1) (fun rs2 =>
     bind (rc_end R re1) (fun re2 =>
@@ -63,6 +64,8 @@ Proof.
   rc_stage1 ai rs re cs ce. py_simpl.
   generalize (rc_pre ai rs) (rc_pre ai re) (rc_pre ai cs) (rc_pre ai ce). intros o1 o2 o3 o4.
   do 4 (rewrite rc_default_block; cbv beta).
+  match goal with |- context [(?c =? 0) || (?r =? 0)] => destruct ((c =? 0) || (r =? 0)) end;
+  py_simpl; [reflexivity|].
   match goal with |- context [(?c =? 0) || (?r =? 0)] => destruct ((c =? 0) || (r =? 0)) end;
   py_simpl; [reflexivity|].
   py_bind_ext; [unfold rc_start; py_crush|].
